@@ -40,3 +40,13 @@ claim("C15", "DESIGN.md §3 C15",
       "For every fault assignment: the five failover loops range over fg.servers in configured order, move to the next upstream only across the 'unavailable' edge, return errors as is (wrapped) with the group's strictness; classification tables (decodeErrorType identity, IsUnavailableError, 4xx/5xx fallbacks, stream failures) agree with their documented meaning; problemFromError maps unavailability to Warning (Bug only when required) and never to the caller's severity; at all API call sites in internal/checks the result is dereferenced only where err is nil or the result non-nil, and the failure region builds problems only through problemFromError(err).",
       SA_NOTE,
       "static analysis: loop-continuation reachability with cut edges on go/cfg, constant table extraction, nil/err dominance at every resolved API call site (helpers that return the API error included)")
+
+claim("C10", "DESIGN.md §3 C10",
+      "For all files: comments are parsed and excluded bytes blanked before a line is published to r.lines or served by Read; the line buffer has exactly three writers (fill, consume, blank); nothing is collected into r.comments/r.diagnostics after ignore/file or from a line excluded by an earlier comment (exclusion flag read before it is updated), and such lines are blanked completely; blanking stores only spaces, never over a newline, and never changes the buffer length.",
+      SA_NOTE,
+      "static analysis: must-pass-through and dominance on go/cfg over the reader's three functions, who-may-write on the buffer field, lexical guard analysis")
+
+claim("C17", "DESIGN.md §3 C17",
+      "For all comment populations and budgets (single round): Create is unreachable within the iteration in which IsEqual held and is dominated by CanCreate(created); every successful Create is counted before the next pending comment and the counter has one writer; Delete is unreachable after a true IsEqual and dominated by CanDelete; both phases scan the same makeComments list; each platform's IsEqual lets path, line and text of both sides influence the result and CanCreate is n < maxComments; the summary is posted on every success path and Delete errors are collected. Convergence over rounds is not decided.",
+      SA_NOTE,
+      "static analysis: within-iteration reachability on go/cfg (loop head blocked), dominance, field-influence on the sibling IsEqual implementations")
